@@ -324,30 +324,48 @@ func runC18(c *Ctx) {
 			n++
 			guarded := false
 			child := ast.Node(call)
+			baseEmpty, firstFile := false, false
 			for p := pm[call]; p != nil; child, p = p, pm[p] {
 				ifs, ok := p.(*ast.IfStmt)
-				if !ok || !(ifs.Body.Pos() <= child.Pos() && child.End() <= ifs.Body.End()) {
+				if !ok {
 					continue
 				}
-				baseEmpty, firstFile := false, false
-				for _, fct := range impliedFacts(ifs.Cond, true) {
-					be, ok := fct.expr.(*ast.BinaryExpr)
-					if !ok || be.Op != token.EQL || !fct.val {
+				var facts []fact
+				switch {
+				case ifs.Body.Pos() <= child.Pos() && child.End() <= ifs.Body.End():
+					facts = impliedFacts(ifs.Cond, true)
+				case ifs.Else != nil && ifs.Else.Pos() <= child.Pos() && child.End() <= ifs.Else.End():
+					facts = impliedFacts(ifs.Cond, false)
+				}
+				for _, fct := range facts {
+					// facts that make a non-negative integer zero: x == 0 holds; x > 0, x != 0, x >= 1 fail
+					be, ok := ast.Unparen(fct.expr).(*ast.BinaryExpr)
+					if !ok {
 						continue
 					}
 					tv := info.Types[be.Y]
-					if tv.Value == nil || tv.Value.String() != "0" {
+					if tv.Value == nil {
+						continue
+					}
+					k := tv.Value.String()
+					zero := be.Op == token.EQL && fct.val && k == "0" ||
+						be.Op == token.NEQ && !fct.val && k == "0" ||
+						be.Op == token.GTR && !fct.val && k == "0" ||
+						be.Op == token.GEQ && !fct.val && k == "1" ||
+						be.Op == token.LSS && fct.val && k == "1" ||
+						be.Op == token.LEQ && fct.val && k == "0"
+					if !zero {
 						continue
 					}
 					if a := lenArg(info, be.X); a != nil && types.ExprString(a) == "base" {
 						baseEmpty = true
-					} else {
+					} else if _, isID := ast.Unparen(be.X).(*ast.Ident); isID {
 						firstFile = true
 					}
 				}
-				if baseEmpty && firstFile {
-					guarded = true
-				}
+			}
+			if baseEmpty && firstFile {
+				guarded = true
 			}
 			c.Check("R18d", "LoadChanges|whole-file shortcut only for the first file without a base", call.Pos(), guarded, "DevLoader.first (one diff for the whole file, position 0) is used on a path that does not establish len(base) == 0 and i == 0: drops inside the file are merged away or mis-positioned when earlier files exist")
 			return true
